@@ -3,6 +3,7 @@
 set -e
 export GOFLAGS=-mod=readonly GOPROXY=off GOSUMDB=off GOTOOLCHAIN=local
 mod=$1; rel=$2; file=$3; re=$4
-work=/verif/.work/findings; mkdir -p $work
-echo "{\"Replace\":{\"/repo/modules/$mod/$rel/zz_verif_finding_test.go\":\"$file\"}}" > $work/ov.json
-cd /repo/modules/$mod && go test -vet=off -count=1 -overlay $work/ov.json -run "$re" ./$rel/ 2>&1 | tail -25
+REPO=${VERIF_REPO:-/repo}
+work=/verif/.work/findings$$; mkdir -p $work
+echo "{\"Replace\":{\"$REPO/modules/$mod/$rel/zz_verif_finding_test.go\":\"$file\"}}" > $work/ov.json
+cd $REPO/modules/$mod && go test -vet=off -count=1 -overlay $work/ov.json -run "$re" ./$rel/ 2>&1 | tail -25
